@@ -218,6 +218,49 @@ Theorem C10_program_as_text_source :
 Proof. exact program_as_text_source. Qed.
 Print Assumptions C10_program_as_text_source.
 
+(** A program as string TRANSFORMER ([SRC -transformed-by run PROGRAM]): the program is run with its own stdin parts
+    followed by the text to transform; the result is its stdout after its transformations; a non-zero exit code is
+    a hard error unless -ignore-exit-code is given.  As text MATCHER ([stdout run PROGRAM]): same stdin; it matches
+    iff the exit code the process returned is 0.  As file MATCHER ([exists PATH : run PROGRAM]): the path is
+    accumulated onto the program as one more argument - so it is the LAST argument whatever chain of symbols the
+    program goes through -, stdin is the program's own; it matches iff the exit code is 0. *)
+Theorem C10_run_as_transformer :
+  forall (r : table -> program -> res rprog) (asm : list part -> option text) (f : nat) (tbl : table) (cwd : text)
+         (s : src) (ign : bool) (p : program) (w : world) (o : outcome) (trs : list transformer) (w' : world),
+    run_program r asm f tbl cwd p [s] w = EOk (o, trs) w' ->
+    eval_src r asm (S f) tbl cwd (SRunT s ign p) w =
+    if (o_code o =? 0) || ign then EOk (apply_trs trs (o_out o)) w' else EHard w'.
+Proof. exact run_as_transformer. Qed.
+Print Assumptions C10_run_as_transformer.
+
+Theorem C10_run_as_text_matcher :
+  forall (r : table -> program -> res rprog) (asm : list part -> option text) (fuel : nat) (ph : phase) (ch : chan)
+         (neg : bool) (p : program) (st : state) (a o : outcome) (trs : list transformer) (w' : world),
+    st_act st = Some a ->
+    run_program r asm fuel (st_tbl st) (st_cwd st) p [SFile (select ch a)] (st_world st) = EOk (o, trs) w' ->
+    exec_instr r asm fuel ph (IOutRun ch neg p) st
+    = Ok (if xorb (o_code o =? 0) neg then StPass else StFail, set_world st w').
+Proof. exact run_as_text_matcher. Qed.
+Print Assumptions C10_run_as_text_matcher.
+
+Theorem C10_run_as_file_matcher :
+  forall (r : table -> program -> res rprog) (asm : list part -> option text) (fuel : nat) (ph : phase) (neg : bool)
+         (path : text) (p : program) (st : state) (o : outcome) (trs : list transformer) (w' : world),
+    run_program r asm fuel (st_tbl st) (st_cwd st) (new_accumulated p (Acc [] [AStr [FConst path]] [])) []
+                (st_world st) = EOk (o, trs) w' ->
+    exec_instr r asm fuel ph (IFileRun neg path p) st
+    = Ok (if xorb (o_code o =? 0) neg then StPass else StFail, set_world st w').
+Proof. exact run_as_file_matcher. Qed.
+Print Assumptions C10_run_as_file_matcher.
+
+Theorem C10_accumulating_onto_a_program_appends :
+  forall (fuel : nat) (tbl : table) (p : program) (a : acc src) (rp : rprog),
+    resolve fuel tbl p = Ok rp ->
+    resolve fuel tbl (new_accumulated p a)
+    = Ok (RProg (r_driver rp) (r_args rp ++ a_args a) (r_stdin rp ++ a_stdin a) (r_tr rp ++ a_tr a)).
+Proof. exact resolve_new_accumulated. Qed.
+Print Assumptions C10_accumulating_onto_a_program_appends.
+
 (** The other actors.  File interpreter: the process is the interpreter with its arguments, then the source file,
     then the arguments of the act phase; stdin is the [setup] stdin only; the outcome is stored as it is. *)
 Theorem C10_file_interpreter_actor_process :
@@ -263,17 +306,41 @@ Print Assumptions C10_null_actor.
 
 (** *** 4. Whole cases: the model refines the specification *)
 
-(** For every well-formed symbol table (the definitions made), every case that makes no further definitions, every
-    fuel, current directory and oracle: the model of the code ([run_case]: resolution with fuel as the code does
-    it) and the specification ([spec_run_case]: the declarative denotation) give the same processes, stdin texts,
-    directories, captured outcome, captured texts and verdict (or the same model error). *)
+(** For every well-formed initial symbol table (e.g. the empty one) and EVERY case - `def` instructions for
+    strings, lists, paths and programs may stand anywhere in any phase, interleaved with the uses; what an
+    instruction sees is what has been defined before it in EXECUTION order -, every fuel, current directory and
+    oracle: the model of the code ([run_case]: resolution with fuel as the code does it) and the specification
+    ([spec_run_case]: the declarative denotation) give the same processes, stdin texts, directories, captured
+    outcome, captured texts and verdict (or the same model error; a definition that exactly's symbol validation
+    rejects is such an error in both). *)
 Theorem C10_model_refines_specification :
   forall (tbl : table), wf_table tbl ->
-  forall (c : tcase), case_no_defs c = true ->
-  forall (fuel : nat) (cwd : text) (oracle : list outcome),
+  forall (c : tcase) (fuel : nat) (cwd : text) (oracle : list outcome),
     run_case fuel cwd tbl c oracle = spec_run_case fuel cwd tbl c oracle.
 Proof. exact model_refines_spec. Qed.
 Print Assumptions C10_model_refines_specification.
+
+(** Every symbol table reached while the instructions of a phase run is well formed (so theorems 1-2 apply at
+    every use, and resolution never runs out of fuel). *)
+Theorem C10_reached_symbol_tables_are_well_formed :
+  forall (r : table -> program -> res rprog) (asm : list part -> option text) (fuel : nat) (ph : phase)
+         (l : list instr) (st : state) (s : status) (st' : state),
+    wf_table (st_tbl st) -> exec_phase r asm fuel ph l st = Ok (s, st') -> wf_table (st_tbl st').
+Proof. exact reached_tables_well_formed. Qed.
+Print Assumptions C10_reached_symbol_tables_are_well_formed.
+
+(** a definition made in [before-assert] is used in [assert] and [cleanup]; the same case with the use BEFORE the
+    definition in execution order is the loud unknown-symbol error (rejected by exactly's validation) *)
+Example C10_example_interleaved :
+  let p0 := PCmd (Cmd (DSys [FConst [112]]) []) acc_empty in
+  let use := IRun false (PRef 2 (Acc [] [AStr [FConst [122]]] [])) in
+  let c := TC [IDef 1 (VProg p0)] ActNull [IDef 2 (VProg (PRef 1 (Acc [] [AStr [FConst [121]]] [])))] [use] [use] in
+  let c' := TC [IDef 1 (VProg p0); use] ActNull [IDef 2 (VProg (PRef 1 acc_empty))] [] [] in
+  run_case 10 [47] [] c [Out 0 [] []; Out 0 [] []]
+  = Ok (Res StPass [PS (ExArgv [[112]; [121]; [122]]) None [47]; PS (ExArgv [[112]; [121]; [122]]) None [47]]
+           (Some (Out 0 [] [])) None []) /\
+  run_case 10 [47] [] c' [Out 0 [] []] = Err (EUnknownSymbol 2).
+Proof. vm_compute. split; reflexivity. Qed.
 
 (** *** Non-vacuity *)
 
